@@ -10,6 +10,7 @@ package main
 // uninterrupted run.
 
 import (
+	"os/exec"
 	"bytes"
 	"fmt"
 	"os"
@@ -29,7 +30,46 @@ type crashScenario struct {
 	command func(w *World, dir string, extraEnv []string) gitenv.Result // the command under test
 	corrupt map[string]bool                                               // objects the set-up corrupted on purpose (hex)
 	skip    func() string                                                 // non-empty: why the scenario cannot run here
+	// syscalls: kill points are the process's own file-mutating system calls (strace injects SIGKILL on
+	// entering the n-th of them) instead of the verif-tag crash points: no hook needed, new code included
+	syscalls bool
+	// mayFail: the uninterrupted command may fail on this tree (its exit status is then what a re-run
+	// after a kill must reproduce); what is asserted about the store does not depend on it
+	mayFail bool
 }
+
+const killSyscalls = "write,pwrite64,writev,rename,renameat,renameat2,link,linkat,unlink,unlinkat,ftruncate,truncate"
+
+// straceWrapper puts a `git-lfs` in front of the real one that runs it under strace: with
+// VERIF_SYSCALL_LOG it records the system calls of killSyscalls, with VERIF_SYSCALL_AT=n the process is
+// killed on entering the n-th of them (and VERIF_SYSCALL_KILLED is appended to).
+func straceWrapper(dir, real string) error {
+	os.MkdirAll(dir, 0o755)
+	script := "#!/bin/sh\nSET=" + killSyscalls + "\n" +
+		"if [ -n \"$VERIF_SYSCALL_LOG\" ]; then exec strace -qq -f -b execve -o \"$VERIF_SYSCALL_LOG.$$\" -e trace=$SET " + real + " \"$@\"; fi\n" +
+		"if [ -n \"$VERIF_SYSCALL_AT\" ]; then strace -qq -f -b execve -o /dev/null -e trace=$SET -e inject=$SET:signal=KILL:when=$VERIF_SYSCALL_AT " + real + " \"$@\"; rc=$?; " +
+		"[ $rc -eq 137 ] && echo \"$$ $*\" >> \"$VERIF_SYSCALL_KILLED\"; exit $rc; fi\n" +
+		"exec " + real + " \"$@\"\n"
+	return os.WriteFile(filepath.Join(dir, "git-lfs"), []byte(script), 0o755)
+}
+
+func straceUsable() bool {
+	return exec.Command("strace", "-qq", "-o", "/dev/null", "true").Run() == nil
+}
+
+const otherFsAgent = `#!/bin/sh
+# custom transfer agent: "downloads" by copying from $1 into $2 (a directory on another filesystem)
+while IFS= read -r line; do
+  case "$line" in
+    *'"event":"init"'*) echo '{}' ;;
+    *'"event":"download"'*)
+      oid=$(printf '%s' "$line" | sed 's/.*"oid":"\([0-9a-f]*\)".*/\1/')
+      if cp "$1/$oid" "$2/$oid"; then printf '{"event":"complete","oid":"%s","path":"%s"}\n' "$oid" "$2/$oid"
+      else printf '{"event":"complete","oid":"%s","error":{"code":2,"message":"copy failed"}}\n' "$oid"; fi ;;
+    *'"event":"terminate"'*) exit 0 ;;
+  esac
+done
+`
 
 // otherFilesystem returns a directory on a filesystem other than dir's (hard links from it fail), or "".
 func otherFilesystem(dir string) string {
@@ -211,6 +251,51 @@ func crashScenarios() []crashScenario {
 		}, command: func(w *World, dir string, ex []string) gitenv.Result {
 			return w.Env.RunIn(dir, ex, nil, 120*time.Second, "git", "lfs", "prune")
 		}},
+		// a transfer agent that hands its downloads over on another filesystem: moving them into the object
+		// store cannot be a rename.  (On this tree the move is refused; whatever a tree does instead, a kill
+		// at any system call must not leave a bad object.)
+		{name: "agent-other-fs", syscalls: true, mayFail: true, skip: func() string {
+			if otherFilesystem(os.TempDir()) == "" && otherFilesystem("/verif") == "" {
+				return "no second filesystem for the transfer agent to download to"
+			}
+			if !straceUsable() {
+				return "strace cannot trace here"
+			}
+			return ""
+		}, setup: func(w *World, root string) (string, error) {
+			if err := publishThree(w); err != nil {
+				return "", err
+			}
+			cloneB, err := makeCloneB(w, root)
+			if err != nil {
+				return "", err
+			}
+			other := otherFilesystem(root)
+			if other == "" {
+				return "", fmt.Errorf("no second filesystem")
+			}
+			dst, err := os.MkdirTemp(other, "verif-c09-agent-")
+			if err != nil {
+				return "", err
+			}
+			w.cleanup = append(w.cleanup, func() { os.RemoveAll(dst) })
+			src := filepath.Join(root, "agent-src")
+			os.MkdirAll(src, 0o755)
+			for _, o := range []string{"o1", "o2", "o3"} {
+				os.WriteFile(filepath.Join(src, w.Hex(o)), w.Content(o), 0o644)
+			}
+			agent := filepath.Join(root, "agent.sh")
+			os.WriteFile(agent, []byte(otherFsAgent), 0o755)
+			for _, kv := range [][2]string{{"lfs.customtransfer.xfs.path", agent}, {"lfs.customtransfer.xfs.args", src + " " + dst},
+				{"lfs.customtransfer.xfs.concurrent", "false"}, {"lfs.standalonetransferagent", "xfs"}} {
+				if r := w.Env.Git(cloneB, "config", kv[0], kv[1]); !r.OK() {
+					return "", fmt.Errorf("config: %s", r.All())
+				}
+			}
+			return cloneB, nil
+		}, command: func(w *World, dir string, ex []string) gitenv.Result {
+			return w.Env.RunIn(dir, ex, nil, 120*time.Second, "git", "lfs", "fetch", "origin", "main")
+		}},
 	}
 }
 
@@ -288,14 +373,30 @@ func init() {
 		c.Set("spec_mutants_violate", "ObjectsSound")
 
 		type job struct {
-			sc crashScenario
-			k  int
-			ref string
+			sc      crashScenario
+			k       int
+			ref     string
+			refCode int
 		}
 		var jobs []job
 		pointsPer := map[string]int{}
 		pointNames := map[string]map[string]int{}
-		for si, sc := range crashScenarios() {
+		scenarios := crashScenarios()
+		if straceUsable() {
+			// the same scenarios once more with system calls as kill points (no hook involved: code paths
+			// without crash points are covered too)
+			for _, sc := range crashScenarios() {
+				switch sc.name {
+				case "git-add", "lfs-fetch", "fsck-repair", "prune":
+					v := sc
+					v.name, v.syscalls = sc.name+"/syscalls", true
+					scenarios = append(scenarios, v)
+				}
+			}
+		} else {
+			c.Assume("strace cannot trace here: system-call kill points skipped")
+		}
+		for si, sc := range scenarios {
 			if sc.skip != nil {
 				if why := sc.skip(); why != "" {
 					c.Assume("scenario " + sc.name + " skipped: " + why)
@@ -312,19 +413,54 @@ func init() {
 				c.Infra("setup %s: %v", sc.name, err)
 			}
 			counter, logf := filepath.Join(root, "counter"), filepath.Join(root, "points.log")
-			r := sc.command(w, dir, []string{"VERIF_CRASH_COUNTER=" + counter, "VERIF_CRASH_LOG=" + logf})
-			if r.Code != 0 {
-				c.Infra("reference run of %s failed: %s", sc.name, core.Tail(r.All(), 800))
-			}
-			lb, _ := os.ReadFile(logf)
-			lines := strings.Split(strings.TrimSpace(string(lb)), "\n")
+			var r gitenv.Result
 			k := 0
 			names := map[string]int{}
-			for _, l := range lines {
-				if f := strings.Fields(l); len(f) >= 2 {
-					k++
-					names[f[1]]++
+			if sc.syscalls {
+				// reference run under strace (threads followed, children let go at their execve)
+				sbin := filepath.Join(root, "sbin")
+				if err := straceWrapper(sbin, lfs); err != nil {
+					c.Infra("strace wrapper: %v", err)
 				}
+				slog := filepath.Join(root, "syscalls")
+				r = sc.command(w, dir, []string{"PATH=" + sbin + ":" + filepath.Dir(lfs) + ":/usr/local/bin:/usr/bin:/bin", "VERIF_SYSCALL_LOG=" + slog})
+				logs, _ := filepath.Glob(slog + ".*")
+				for _, lf := range logs {
+					// strace -f prefixes every line with the thread id; its injection counts per thread, so the
+					// kill points of a process are 1 .. the largest number of calls one of its threads made
+					b, _ := os.ReadFile(lf)
+					perThread := map[string]int{}
+					for _, l := range strings.Split(string(b), "\n") {
+						f := strings.Fields(l)
+						if len(f) < 2 {
+							continue
+						}
+						if i := strings.Index(f[1], "("); i > 0 {
+							perThread[f[0]]++
+							names[f[1][:i]]++
+						}
+					}
+					for _, n := range perThread {
+						if n > k {
+							k = n
+						}
+					}
+				}
+			} else {
+				r = sc.command(w, dir, []string{"VERIF_CRASH_COUNTER=" + counter, "VERIF_CRASH_LOG=" + logf})
+				lb, _ := os.ReadFile(logf)
+				for _, l := range strings.Split(strings.TrimSpace(string(lb)), "\n") {
+					if f := strings.Fields(l); len(f) >= 2 {
+						k++
+						names[f[1]]++
+					}
+				}
+			}
+			if r.Code != 0 && !sc.mayFail {
+				c.Infra("reference run of %s failed: %s", sc.name, core.Tail(r.All(), 800))
+			}
+			if r.Code == -2 {
+				c.Infra("reference run of %s did not finish", sc.name)
 			}
 			if k < 2 {
 				c.Infra("scenario %s reached only %d crash points; output of the command: %s", sc.name, k, core.Tail(r.All(), 1500))
@@ -340,7 +476,7 @@ func init() {
 			}
 			for i := 1; i <= k; i++ {
 				if i <= 12 || i > k-12 || i%stride == 0 {
-					jobs = append(jobs, job{sc, i, ref})
+					jobs = append(jobs, job{sc, i, ref, r.Code})
 				}
 			}
 		}
@@ -349,7 +485,12 @@ func init() {
 		c.Logf("killing at %d points", len(jobs))
 		var mu sync.Mutex
 		var infra error
-		killed := 0
+		killed, killedSys, jobsSys := 0, 0, 0
+		for _, j := range jobs {
+			if j.sc.syscalls {
+				jobsSys++
+			}
+		}
 		core.Parallel(len(jobs), 14, func(i int) {
 			j := jobs[i]
 			root := filepath.Join(c.Work, fmt.Sprintf("k%d", i))
@@ -370,16 +511,41 @@ func init() {
 			}
 			counter, logf := filepath.Join(root, "counter"), filepath.Join(root, "points.log")
 			pre := scanStore(filepath.Join(dir, ".git"))
-			r := j.sc.command(w, dir, []string{"VERIF_CRASH_COUNTER=" + counter, "VERIF_CRASH_LOG=" + logf, fmt.Sprintf("VERIF_CRASH_AT=%d", j.k)})
-			lb, _ := os.ReadFile(logf)
-			reached := strings.Count(string(lb), "\n")
+			var r gitenv.Result
+			reached := 0
 			last := ""
-			if ls := strings.Split(strings.TrimSpace(string(lb)), "\n"); len(ls) > 0 {
-				last = ls[len(ls)-1]
+			if j.sc.syscalls {
+				sbin := filepath.Join(root, "sbin")
+				if err := straceWrapper(sbin, lfs); err != nil {
+					mu.Lock()
+					infra = err
+					mu.Unlock()
+					return
+				}
+				kf := filepath.Join(root, "killed")
+				r = j.sc.command(w, dir, []string{"PATH=" + sbin + ":" + filepath.Dir(lfs) + ":/usr/local/bin:/usr/bin:/bin",
+					fmt.Sprintf("VERIF_SYSCALL_AT=%d", j.k), "VERIF_SYSCALL_KILLED=" + kf})
+				if kb, err := os.ReadFile(kf); err == nil && len(kb) > 0 {
+					reached = j.k
+					last = fmt.Sprintf("%d syscall#%d %s", j.k, j.k, strings.TrimSpace(strings.SplitN(string(kb), "\n", 2)[0]))
+				} else {
+					last = fmt.Sprintf("%d syscall#%d (not reached)", j.k, j.k)
+				}
+			} else {
+				r = j.sc.command(w, dir, []string{"VERIF_CRASH_COUNTER=" + counter, "VERIF_CRASH_LOG=" + logf, fmt.Sprintf("VERIF_CRASH_AT=%d", j.k)})
+				lb, _ := os.ReadFile(logf)
+				reached = strings.Count(string(lb), "\n")
+				if ls := strings.Split(strings.TrimSpace(string(lb)), "\n"); len(ls) > 0 {
+					last = ls[len(ls)-1]
+				}
 			}
 			if reached >= j.k {
 				mu.Lock()
-				killed++
+				if j.sc.syscalls {
+					killedSys++
+				} else {
+					killed++
+				}
 				mu.Unlock()
 			}
 			after := scanStore(filepath.Join(dir, ".git"))
@@ -400,8 +566,8 @@ func init() {
 			}
 			// re-run the same command without interference
 			r2 := j.sc.command(w, dir, nil)
-			if r2.Code != 0 {
-				mk("rerun-completes", "re-running the command after the kill failed: "+core.Tail(r2.All(), 400))
+			if r2.Code != j.refCode {
+				mk("rerun-completes", fmt.Sprintf("re-running the command after the kill ended with status %d (an uninterrupted run: %d): %s", r2.Code, j.refCode, core.Tail(r2.All(), 400)))
 				return
 			}
 			fin := scanStore(filepath.Join(dir, ".git"))
@@ -418,18 +584,25 @@ func init() {
 		if infra != nil {
 			c.Infra("%v", infra)
 		}
-		if killed < len(jobs)*9/10 {
-			c.Infra("only %d of %d runs reached their crash point", killed, len(jobs))
+		if killed < (len(jobs)-jobsSys)*9/10 {
+			c.Infra("only %d of %d runs reached their crash point", killed, len(jobs)-jobsSys)
+		}
+		// strace counts per thread and the Go runtime spreads the calls over its threads differently from
+		// run to run: a given ordinal is not always reached
+		if jobsSys > 0 && killedSys < jobsSys/2 {
+			c.Infra("only %d of %d runs were killed at their system call", killedSys, jobsSys)
 		}
 		c.Set("kills_delivered", killed)
+		c.Set("kills_delivered_at_system_calls", killedSys)
+		c.Set("runs_with_system_call_kill_points", jobsSys)
 		c.Set("traces_validated_against_impl", len(jobs))
 		c.Set("evaluations", len(jobs))
 		c.Set("distinct_nontrivial", len(jobs))
 		c.Set("exhaustive", !c.Quick())
-		c.Set("rule", "cases = (scenario, ordinal of the reached crash point): scenarios git add of 3 files (one duplicate), lfs fetch / lfs pull / one-shot smudge with download in a fresh clone, lfs fetch in a --shared clone whose reference store is on the same filesystem (hard link) and on another one (copy), fsck repair of 2 corrupt objects, prune; every reached point in the thorough tier, the first and last 12 plus a stride in the quick tier")
+		c.Set("rule", "cases = (scenario, ordinal of the reached crash point): scenarios git add of 3 files (one duplicate), lfs fetch / lfs pull / one-shot smudge with download in a fresh clone, lfs fetch in a --shared clone whose reference store is on the same filesystem (hard link) and on another one (copy), fsck repair of 2 corrupt objects, prune, lfs fetch through a transfer agent that hands its downloads over on another filesystem (kill points = system calls); every reached point in the thorough tier, the first and last 12 plus a stride in the quick tier")
 		for i := 0; i < len(jobs); i += len(jobs)/5 + 1 {
 			c.Sample(map[string]interface{}{"scenario": jobs[i].sc.name, "kill_at_point": jobs[i].k, "of": pointsPer[jobs[i].sc.name]})
 		}
-		c.Assume("crash = SIGKILL of the git-lfs process at a verif-tag crash point (tools.TempFile, every write burst of CopyWithCallback, RobustRename, clean's rename, LinkOrCopy / CopyFileContents, fsck's move, prune's unlink); power loss is out of scope; migrate import is not yet among the scenarios")
+		c.Assume("crash = SIGKILL of the git-lfs process at a verif-tag crash point, or (scenario agent-other-fs) on entering its n-th file-mutating system call under strace (tools.TempFile, every write burst of CopyWithCallback, RobustRename, clean's rename, LinkOrCopy / CopyFileContents, fsck's move, prune's unlink); power loss is out of scope; migrate import is not yet among the scenarios")
 	}
 }
